@@ -9,7 +9,8 @@ import surface
 import oracles
 import pipecmp
 from common import DRIVER, RVH_DEBUG, hx, proof_stage, run_lines, run_lines_isolated
-from pipeline import correspondence
+from pipeline import correspondence, pipe_req
+from pipeline import field as pf
 
 THEOREMS = ["Rva.adv_inv", "Rva.lexNext_ok", "Rva.lexAll_positions", "Rva.lexString_positions",
             "Rva.curInv_init", "Rva.skipWs_pres", "Rva.accString_pres"]
@@ -85,12 +86,52 @@ def run(res, tier, seed):
             if e and first is None:
                 first = {"source": s, "what": e, "trace": line, "stage": "parse/diag",
                          "replay_cmd": f"echo 'pipe parse,lints,run 1 {hx('m.s')} {hx(s)}' | {RVH_DEBUG}"}
-    res.cov["evaluations"] = len(srcs)
-    res.cov["distinct_nontrivial"] = len(set(srcs))
+    # --- programs spread over several files: a diagnostic names a file *and* a range; the range
+    #     must designate the item's text inside that very file (every violation class of C05,
+    #     cut at random line boundaries into an include tree)
+    import conform
+    from props import c05, c15
+    multi = []
+    for _ in range(6 if tier == "quick" else 80):
+        lines, _ = conform.program(rng, shapes=False)
+        for cls, new, exp in c05.inject(rng, lines):
+            text_lines = [t for t, _ in new]
+            for _try in range(2):
+                files, _map = c15.split_tree(rng, text_lines)
+                if len(files) >= 2:
+                    break
+            if len(files) < 2:
+                continue
+            order = c15.import_order(files)
+            fl = [("base.s", "\n".join(files["base.s"]) + "\n")] + \
+                 [(k, "\n".join(v) + "\n") for k, v in files.items() if k != "base.s"]
+            multi.append((cls, fl, [dict(fl)[nm] for nm in order]))
+    stats["multi_file_programs"] = len(multi)
+    stats["multi_file_diags"] = 0
+    stats["multi_file_diags_in_included"] = 0
+    impl3, models3, bad3 = correspondence("lints,run", [fl for _, fl, _ in multi])
+    if bad3 and corr_bad is None:
+        i, fam, d = bad3[0]
+        corr_bad = {"stage": fam + " (multi-file)", "files": multi[i][1], "impl_vs_model": d}
+    for (cls, fl, ordered), blk in zip(multi, impl3):
+        for line in blk:
+            if line.startswith(("LINT", "RUN")):
+                stats["multi_file_diags"] += 1
+                if not (pf(line, "at") or "@0").endswith("@0"):
+                    stats["multi_file_diags_in_included"] += 1
+                e = oracles.check_diag_line(ordered, line, "diagnostic")
+                if e and first is None:
+                    first = {"files": fl, "what": e + f" (program with a '{cls}' violation, split over "
+                             f"{len(fl)} files)", "trace": line, "stage": "diag/multi-file",
+                             "replay_cmd": "echo '%s' | %s" % (pipe_req("lints,run", fl), RVH_DEBUG)}
+    res.cov["evaluations"] = len(srcs) + len(multi)
+    res.cov["distinct_nontrivial"] = len(set(srcs)) + len(multi)
     res.cov["rule"] = ("generated programs and statement soups rendered with random layout (leading blank "
                        "lines, tabs, trailing comments, several statements per line, CRLF, label placement, "
                        "missing final newline); every token, node, operand token, parse error and diagnostic "
-                       "location of the real code is checked against the text it must designate; lexer, parser "
+                       "location of the real code is checked against the text it must designate (also for "
+                       "programs with every C05 violation class cut into include trees: the range must "
+                       "designate the text inside the file the diagnostic names); lexer, parser "
                        "and lint traces also diffed against the Lean model")
     res.cov["samples"] = srcs[:2] + srcs[-3:]
     res.cov["input_distribution"] = stats
